@@ -199,8 +199,82 @@ theorem Described2.ok {g : Comp} {mid : Bool} (h : Described2 g mid) : (∀ P, g
     obtain ⟨k, hk, rfl⟩ := itemsO_mem hc
     exact (hside k hk).2
 
-/-- every `Described` parameter is `Described2` in the sense that matters: it is a component for every state property -/
-theorem Described.okM {g : Comp} (h : Described g) (P : EncState → Prop) : g.OkM false P := h.ok.1.toM false P
+/-! ### `Described2` extends `Described` -/
+
+theorem MComps.mem_ofComps {gs : List Comp} {m : MComp} (hm : m ∈ MComps.ofComps gs) : ∃ g ∈ gs, m = { c := g, mid := false } := by
+  obtain ⟨g, hg, rfl⟩ := List.mem_map.mp hm
+  exact ⟨g, hg, rfl⟩
+
+theorem itemsO_ofComps (items : List (List Comp)) : itemsO none (items.map MComps.ofComps) = items.map DComp.struct := by
+  simp only [itemsO, List.map_map]
+  apply List.map_congr_left
+  intro k _
+  show DComp.structO none (MComps.cs (MComps.ofComps k)) = DComp.struct k
+  rw [MComps.cs_ofComps]
+  rfl
+
+theorem itemSide2_ofComps (shape : List Param) (k : List Comp) (h : itemSide shape k) :
+    itemSide2 none shape (MComps.ofComps k) := by
+  obtain ⟨h1, h2, h3⟩ := h
+  refine ⟨?_, ?_, ?_, MComps.midNotLast_ofComps k, fun _ hb => nomatch hb⟩ <;> rw [MComps.cs_ofComps] <;> assumption
+
+theorem structO_size_ofComps (k : List Comp) : (DComp.structO none (MComps.cs (MComps.ofComps k))).size = Comps.cur k 0 0 := by
+  rw [MComps.cs_ofComps]; rfl
+
+/-- **every `Described` parameter is `Described2`** (with the flag cleared): the new theorems cover the old instances -/
+theorem Described.to2 {g : Comp} (h : Described g) : Described2 g false := by
+  induction h with
+  | value o v ho hr => exact Described2.value o v ho hr
+  | valueDefault o dv sup ho hr => exact Described2.valueDefault o dv sup ho hr
+  | const o v b ho hr => exact Described2.const o v b ho hr
+  | physConst o v b ho hr => exact Described2.physConst o v b ho hr
+  | struct name bp gs _ hn hlast ih =>
+    have h := Described2.struct name bp none (MComps.ofComps gs)
+      (fun m hm => by obtain ⟨g, hg, rfl⟩ := MComps.mem_ofComps hm; exact ih g hg)
+      (by rw [MComps.cs_ofComps]; exact hn) (by rw [MComps.cs_ofComps]; exact hlast) (fun _ hb => nomatch hb)
+    rw [show MComps.lastMid (MComps.ofComps gs) = false from MComps.midNotLast_ofComps gs, MComps.cs_ofComps] at h
+    exact h
+  | staticField name bp n shape items _ hside ih =>
+    have h := Described2.staticField name bp n none shape (items.map MComps.ofComps)
+      (fun k hk m hm => by
+        obtain ⟨k0, hk0, rfl⟩ := List.mem_map.mp hk
+        obtain ⟨g, hg, rfl⟩ := MComps.mem_ofComps hm
+        exact ih k0 hk0 g hg)
+      (fun k hk => by
+        obtain ⟨k0, hk0, rfl⟩ := List.mem_map.mp hk
+        exact ⟨itemSide2_ofComps shape k0 (hside k0 hk0).1, by rw [structO_size_ofComps]; exact (hside k0 hk0).2⟩)
+    rw [itemsO_ofComps] at h
+    exact h
+  | dynLenField name bp l shape items _ hside hl ih =>
+    have h := Described2.dynLenField name bp l none shape (items.map MComps.ofComps)
+      (fun k hk m hm => by
+        obtain ⟨k0, hk0, rfl⟩ := List.mem_map.mp hk
+        obtain ⟨g, hg, rfl⟩ := MComps.mem_ofComps hm
+        exact ih k0 hk0 g hg)
+      (fun k hk => by
+        obtain ⟨k0, hk0, rfl⟩ := List.mem_map.mp hk
+        exact ⟨itemSide2_ofComps shape k0 (hside k0 hk0).1, by rw [structO_size_ofComps]; exact (hside k0 hk0).2⟩)
+      (by simpa using hl)
+    rw [itemsO_ofComps] at h
+    exact h
+  | eopField name bp mn mx shape items _ hside ih =>
+    have h := Described2.eopField name bp mn mx none shape (items.map MComps.ofComps)
+      (fun k hk m hm => by
+        obtain ⟨k0, hk0, rfl⟩ := List.mem_map.mp hk
+        obtain ⟨g, hg, rfl⟩ := MComps.mem_ofComps hm
+        exact ih k0 hk0 g hg)
+      (fun k hk => by
+        obtain ⟨k0, hk0, rfl⟩ := List.mem_map.mp hk
+        exact ⟨itemSide2_ofComps shape k0 (hside k0 hk0).1, by rw [structO_size_ofComps]; exact (hside k0 hk0).2⟩)
+    rw [itemsO_ofComps] at h
+    exact h
+  | mux name bp m gs _ hn hlast hm ih =>
+    have h := Described2.mux name bp m (MComps.ofComps gs)
+      (fun x hx => by obtain ⟨g, hg, rfl⟩ := MComps.mem_ofComps hx; exact ih g hg)
+      (by rw [MComps.cs_ofComps]; exact hn) (by rw [MComps.cs_ofComps]; exact hlast) (MComps.midNotLast_ofComps gs)
+      (by rw [MComps.cs_ofComps]; exact hm)
+    rw [MComps.cs_ofComps] at h
+    exact h
 
 /-! ### the top level: MATCHING-REQUEST-PARAMs -/
 
